@@ -439,6 +439,10 @@ func c09(c *Ctx) {
 		}
 	})
 
+	c.Rule("C09.R8", "T is the arrival time: the timestamp that starts a series' expiry interval is read after the datagram was received, not before the receiver started waiting for it (C05.R4's receive-time obligations, shared)", 2, func(r *Rule) {
+		importObligations(c, r, c05, "C05.R4", func(k string) bool { return strings.HasPrefix(k, "Receive:timestamp") })
+	})
+
 	c.Rule("C09.R7", "the per-type expiry defaults are taken from expiry-interval only after every configuration source was loaded (no config-file read / flag parse can follow the SetDefault(expiry-interval-<type>, GetDuration(expiry-interval)) calls)", 5, func(r *Rule) {
 		var fns []*ssa.Function
 		for _, fn := range w.ModuleFuncs() {
